@@ -786,7 +786,7 @@ static void monitor_effrange(const int *v, int frameno)
 	else if (v[4] < 1 || v[4] > 255) bad = "speed";
 	else if (v[5] < 1) bad = "bpm";
 	else if (st != 0 && (st < 0 || st > 0x1ffff || (st & 0xff) == 0 || (st & 0xff00) == 0)) bad = "st26";
-	if (bad) {
+	if (bad && first_time("A effrange")) {
 		printf("A effrange frame %d: %s out of the assumed range:", frameno, bad);
 		put_state(v);
 		printf("\n");
@@ -932,7 +932,7 @@ static int run_case(uint64_t cs, int nframes, const char *modname)
 				g_rowadv++;
 			fails += oracle(c, ctx, i, rate, format, tf_called, &prev_loop, synth ? desc : modname);
 			monitor_effrange(post, i);
-			if (ctx->p.frame_time != ctx->m.time_factor * ctx->m.rrate / ctx->p.bpm) {
+			if (ctx->p.frame_time != ctx->m.time_factor * ctx->m.rrate / ctx->p.bpm && first_time("A frametime")) {
 				printf("A frametime frame %d: p->frame_time %.9g is not time_factor*rrate/bpm = %.9g (bpm %d, time factor %g)\n",
 				       i, ctx->p.frame_time, ctx->m.time_factor * ctx->m.rrate / ctx->p.bpm, ctx->p.bpm, ctx->m.time_factor);
 				g_assume++;
